@@ -417,6 +417,9 @@ def finish(prop, tier, seed, merged, t0, level='model_checking', bounds=None, ou
     for v, d, r in zip(specs, res_dev, res_rel):
         exp = v['replay'].get('expect')
         def bad(o):
+            # a replay program that does not even parse says nothing about the property (a rendering problem of the harness): it
+            # never confirms a counterexample, unless a parse error is what the obligation expects
+            if o.startswith('PARSEERR') and not (isinstance(exp, dict) and str(exp.get('prefix', '')).startswith('PARSEERR')): return False
             if exp is None: return o.startswith(('PANIC', 'HANG', 'CRASH'))
             if isinstance(exp, dict):
                 if 'equals' in exp: return o != exp['equals']
